@@ -19,7 +19,8 @@ import (
 
 const NS = b6.Namespace("diagonal.works/ns/verif")
 
-// Model ids: type*1000 + value with type 0 = point, 1 = path, 2 = area; their numeric order is
+// Model ids: type*1000 + value with type 0 = point, 1 = path, 2 = area, 3 = relation, 5 = collection (the
+// values of b6.FeatureType); their numeric order is
 // FeatureID.Less within one namespace.
 func FID(n int) b6.FeatureID {
 	t := b6.FeatureTypePoint
@@ -28,6 +29,10 @@ func FID(n int) b6.FeatureID {
 		t = b6.FeatureTypePath
 	case 2:
 		t = b6.FeatureTypeArea
+	case 3:
+		t = b6.FeatureTypeRelation
+	case 5:
+		t = b6.FeatureTypeCollection
 	}
 	return b6.FeatureID{Type: t, Namespace: NS, Value: uint64(n % 1000)}
 }
@@ -40,6 +45,10 @@ func ModelID(id b6.FeatureID) int {
 		return 1000 + int(id.Value)
 	case b6.FeatureTypeArea:
 		return 2000 + int(id.Value)
+	case b6.FeatureTypeRelation:
+		return 3000 + int(id.Value)
+	case b6.FeatureTypeCollection:
+		return 5000 + int(id.Value)
 	}
 	return 9000 + int(id.Value)
 }
@@ -57,16 +66,18 @@ func (t Tag) B6() b6.Tag {
 }
 
 const (
-	KPoint = 0
-	KPath  = 1
-	KArea  = 2
+	KPoint      = 0
+	KPath       = 1
+	KArea       = 2
+	KRelation   = 3
+	KCollection = 5
 )
 
 // Feat describes a feature to be added.
 type Feat struct {
 	ID       int
 	Lat, Lng int   // E7, points
-	Refs     []int // point ids of a path / path ids of an area
+	Refs     []int // point ids of a path / path ids of an area / members of a relation / keys of a collection
 	Tags     []Tag
 }
 
@@ -88,6 +99,10 @@ func (f Feat) Text() string {
 		g = fmt.Sprintf("pt:%d:%d", f.Lat, f.Lng)
 	case KPath:
 		g = "path:" + ints(f.Refs)
+	case KRelation:
+		g = "rel:" + ints(f.Refs)
+	case KCollection:
+		g = "col:" + ints(f.Refs)
 	default:
 		g = "area:" + ints(f.Refs)
 	}
@@ -119,6 +134,26 @@ func (f Feat) Build() ingest.Feature {
 			g.AddTag(t.B6())
 		}
 		return g
+	case KRelation:
+		r := ingest.NewRelationFeature(len(f.Refs))
+		r.RelationID = FID(f.ID).ToRelationID()
+		for i, m := range f.Refs {
+			r.Members[i] = b6.RelationMember{ID: FID(m), Role: "m"}
+		}
+		for _, t := range f.Tags {
+			r.AddTag(t.B6())
+		}
+		return r
+	case KCollection:
+		c := &ingest.CollectionFeature{CollectionID: FID(f.ID).ToCollectionID()}
+		for i, k := range f.Refs {
+			c.Keys = append(c.Keys, FID(k))
+			c.Values = append(c.Values, i)
+		}
+		for _, t := range f.Tags {
+			c.AddTag(t.B6())
+		}
+		return c
 	default:
 		a := ingest.NewAreaFeature(1)
 		a.AreaID = FID(f.ID).ToAreaID()
@@ -139,7 +174,9 @@ func (f Feat) Build() ingest.Feature {
 var PointIDs = []int{1, 2, 3, 4, 7, 8}
 var PathIDs = []int{1005, 1009, 1011}
 var AreaIDs = []int{2006, 2010}
-var AllIDs = []int{1, 2, 3, 4, 7, 8, 9, 1005, 1009, 1011, 2006, 2010} // 9 never exists
+var RelationIDs = []int{3012, 3013}
+var CollectionIDs = []int{5014}
+var AllIDs = []int{1, 2, 3, 4, 7, 8, 9, 1005, 1009, 1011, 2006, 2010, 3012, 3013, 5014} // 9 never exists
 
 var SearchKeys = []string{"#amenity", "#highway", "@lit"}
 var PlainKeys = []string{"name", "note", "surface"}
@@ -248,6 +285,27 @@ func geomText(f b6.Feature) string {
 				}
 			}
 			return "area:" + ints(ids)
+		case b6.FeatureTypeRelation:
+			r := f.(b6.RelationFeature)
+			ids := make([]int, r.Len())
+			for i := range ids {
+				ids[i] = ModelID(r.Member(i).ID)
+			}
+			return "rel:" + ints(ids)
+		case b6.FeatureTypeCollection:
+			c := f.(b6.CollectionFeature)
+			var ids []int
+			it := c.BeginUntyped()
+			for {
+				ok, err := it.Next()
+				if !ok || err != nil {
+					break
+				}
+				if id, ok := it.Key().(b6.Identifiable); ok {
+					ids = append(ids, ModelID(id.FeatureID()))
+				}
+			}
+			return "col:" + ints(ids)
 		}
 		return "other"
 	})
@@ -391,7 +449,7 @@ func (s *Shadow) Accept(f Feat) {
 		s.Pos[f.ID] = [2]int{f.Lat, f.Lng}
 	case KPath:
 		s.Path[f.ID] = append([]int(nil), f.Refs...)
-	default:
+	case KArea:
 		s.Area[f.ID] = append([]int(nil), f.Refs...)
 	}
 }
@@ -500,6 +558,16 @@ func (k *Case) Snapshot() {
 	k.Dump()
 }
 
+func refIDs(w b6.World, id int) string {
+	var rs []int
+	it := w.FindReferences(FID(id))
+	for it.Next() {
+		rs = append(rs, ModelID(it.FeatureID()))
+	}
+	sort.Ints(rs)
+	return ints(rs)
+}
+
 // Part is one Change of a merged change.
 type Part struct {
 	Kind  string // af | at | rt
@@ -537,6 +605,20 @@ func (k *Case) Merged(parts []Part) string {
 			mc = append(mc, rm)
 		}
 	}
+	// Real-code counterpart of the hypothesis of C13's merged_atomic_of_refs, as far as it can be observed
+	// without touching the world: a fresh overlay over the world (what MergedChange.Apply uses as its
+	// canary) must name the same referrers as the world for every feature the change adds. Counted only.
+	hx.Recover(func() string {
+		canary := ingest.NewMutableOverlayWorld(k.W)
+		agree := true
+		for _, p := range parts {
+			for _, f := range p.Feats {
+				agree = agree && refIDs(canary, f.ID) == refIDs(k.W, f.ID)
+			}
+		}
+		k.C.Note(fmt.Sprintf("merged:canary-refs-agree=%v", agree))
+		return ""
+	})
 	ans := hx.Recover(func() string {
 		_, err := mc.Apply(k.W)
 		return errAns(err)
@@ -597,6 +679,15 @@ func (k *Case) StandardRoot(r *hx.Rand, vary bool) {
 	if vary && r.Chance(1, 3) {
 		pos := Positions[7][0]
 		k.RootFeature(Feat{ID: 7, Lat: pos[0], Lng: pos[1], Tags: RandTags(r, 2)})
+	}
+	if vary && r.Chance(1, 3) {
+		k.RootFeature(Feat{ID: 3012, Refs: []int{1005, 1}, Tags: RandTags(r, 2)})
+		if r.Bool() {
+			k.RootFeature(Feat{ID: 3013, Refs: []int{3012, 2}, Tags: RandTags(r, 2)})
+		}
+	}
+	if vary && r.Chance(1, 4) {
+		k.RootFeature(Feat{ID: 5014, Refs: []int{2, 1005}, Tags: RandTags(r, 2)})
 	}
 }
 
@@ -685,14 +776,33 @@ func (k *Case) RandArea(r *hx.Rand, id int) Feat {
 	return Feat{ID: id, Refs: refs, Tags: RandTags(r, 3)}
 }
 
+// RandMembers: members of a relation / keys of a collection — any ids, mostly existing ones, relations
+// of relations (and now and then a relation containing itself or its container: reference cycles).
+func (k *Case) RandMembers(r *hx.Rand) []int {
+	n := r.Intn(4)
+	var ms []int
+	for i := 0; i < n; i++ {
+		id := AllIDs[r.Intn(len(AllIDs))]
+		if !k.Shadow.Exists[id] && r.Chance(3, 4) {
+			id = []int{1, 2, 3, 4, 1005}[r.Intn(5)]
+		}
+		ms = append(ms, id)
+	}
+	return ms
+}
+
 func (k *Case) RandFeature(r *hx.Rand) Feat {
-	switch x := r.Intn(10); {
+	switch x := r.Intn(12); {
 	case x < 5:
 		return k.RandPoint(r, PointIDs[r.Intn(len(PointIDs))])
 	case x < 8:
 		return k.RandPath(r, PathIDs[r.Intn(len(PathIDs))])
-	default:
+	case x < 10:
 		return k.RandArea(r, AreaIDs[r.Intn(len(AreaIDs))])
+	case x < 11:
+		return Feat{ID: RelationIDs[r.Intn(len(RelationIDs))], Refs: k.RandMembers(r), Tags: RandTags(r, 3)}
+	default:
+		return Feat{ID: CollectionIDs[r.Intn(len(CollectionIDs))], Refs: k.RandMembers(r), Tags: RandTags(r, 3)}
 	}
 }
 
